@@ -610,6 +610,12 @@ func vCostCap(thr float64, embedded bool) int {
 	if thr < 0.65 {
 		return 2500
 	}
+	if thr < 0.8 {
+		// q <= 3: a megabyte of words drawn from a small vocabulary produces hundreds of
+		// thousands of q-gram hits and range fusion is quadratic in them (observed: more
+		// than 3 000 s for a 1 MiB line at threshold 2/3 against a 6-document corpus)
+		return 20000
+	}
 	return -1
 }
 
